@@ -2,7 +2,7 @@
 Deciding monitors: BOOK on every returned container/well, OBS on every observer call."""
 from __future__ import annotations
 
-from .common import shard, run_cases, BASE_ASSUMPTIONS
+from .common import shard, run_cases, BASE_ASSUMPTIONS, repo_suite, repo_suite_job
 
 ID = 'C10'
 LEVEL = 'exploration'
@@ -30,12 +30,21 @@ def required_buckets(tier):
 
 
 def plan(tier, seed):
+    jobs = _plan(tier, seed)
+    if tier != 'quick' or True:
+        jobs = jobs + repo_suite_job()
+    return jobs
+
+
+def _plan(tier, seed):
     if tier == 'quick':
         return shard('history', 160, 8)
     return shard('history', 4000, 32, long=True)
 
 
 def run_job(job):
+    if job['kind'] == 'repo_suite':
+        return run_cases(job, repo_suite)
     return run_cases(job, history)
 
 
